@@ -54,6 +54,7 @@ ScoreVerdicts(ev) ==
          ELSE ~Less(DAbs(Add32(ev.score[k], Neg(Add32(One, ev.d32)))), <<1, -21>>)
       THEN <<"score_is_not_metric_times_one_plus_bonus">> ELSE <<>>)
   \o (IF ev.trialsize # ev.trial THEN <<"trial_size_metric_is_not_the_trial_size">> ELSE <<>>)
+  \o (IF ev.refexp # ev.ref THEN <<"reference_size_is_not_stress_times_the_reference_model_size">> ELSE <<>>)
 Verdicts(ev) == CASE ev.kind = "trial" -> TrialVerdicts(ev) [] ev.kind = "delta" -> DeltaVerdicts(ev)
                   [] ev.kind = "score" -> ScoreVerdicts(ev) [] OTHER -> SizeVerdicts(ev)
 Init == i = 1
